@@ -101,7 +101,13 @@ Proof.
   intros [lgk fic sh hip num sv win] [Hlgk Hfic Hsh Hnum Hhip Hemp Hemph Hsv Hwin].
   cbn [ca_lgk ca_fic ca_seedhash ca_hip ca_num ca_sv ca_win] in *.
   assert (Hrg : (4 <=? lgk) && (lgk <=? 26) && (fic <=? 63) = true) by lia.
+  unfold words_ok, lenN in *.
   destruct sv as [[nsv sw]|]; destruct win as [ww|]; destruct hip as [[k h]|];
+    repeat match goal with H : _ /\ _ |- _ => destruct H end;
+    try match goal with H : None = None -> _ |- _ => specialize (H eq_refl); subst end;
+    try (assert (Hn0 : num <> 0) by (let Z := fresh in intros Z; apply Hemp in Z; destruct Z; discriminate));
+    try (assert (Hz : num = 0) by (apply Hemp; split; reflexivity); subst num;
+         try (destruct (Hemph eq_refl) as [-> ->]));
     unfold spec_decode, enc_spec, fmt_of, lenN; cbn [ca_lgk ca_fic ca_seedhash ca_hip ca_num ca_sv ca_win];
     try change (2 + 4 + 8 + 16) with 30; try change (2 + 0 + 8 + 16) with 26; try change (2 + 4 + 0 + 16) with 22;
     try change (2 + 0 + 0 + 16) with 18; try change (2 + 4 + 8 + 0) with 14; try change (2 + 0 + 8 + 0) with 10;
@@ -120,8 +126,96 @@ Proof.
          match v with true => idtac | false => idtac end; change (N.eqb x y) with v end.
   all: cbn [andb negb]; rewrite Hrg; cbn [negb].
   all: cbv beta iota zeta.
+  all: try change (1 + 2 + 4) with 7; try change (0 + 2 + 4) with 6; try change (1 + 0 + 4) with 5; try change (0 + 0 + 4) with 4;
+       try change (1 + 2 + 0) with 3; try change (0 + 2 + 0) with 2; try change (1 + 0 + 0) with 1; try change (0 + 0 + 0) with 0.
+  all: cbv beta iota zeta.
   all: unfold u32_at, u64_at, words_at; closed_nat; cbn [skipn firstn].
   all: rewrite ?(le2 sh Hsh), ?(le4 num Hnum).
   all: try (assert (num =? 0 = false) as -> by lia).
-  1: match goal with |- ?g => idtac g end.
-Abort.
+  all: repeat match goal with
+       | H : ?x < 4294967296 |- context [le_val [?x mod 256; _; _; _]] => rewrite (le4 x H)
+       | H : ?x < 18446744073709551616 |- context [le_val [?x mod 256; _; _; _; _; _; _; _]] => rewrite (le8 x H)
+       end.
+  all: rewrite ?app_length, ?enc_words_length.
+  all: repeat match goal with
+       | |- context [?a <? ?b] => assert (a <? b = false) as -> by lia
+       | |- context [N.eqb ?a ?b] => assert (N.eqb a b = true) as -> by lia
+       end.
+  all: rewrite ?Nat2N.id.
+  all: repeat match goal with |- context [N.to_nat (4 * (?p + N.of_nat ?n))] =>
+         let c := eval vm_compute in (N.to_nat (4 * p)) in
+         replace (N.to_nat (4 * (p + N.of_nat n))) with (c + 4 * n)%nat by lia end.
+  all: cbn [Nat.add skipn].
+  all: rewrite ?skipn_enc_words.
+  all: repeat match goal with
+       | H : Forall _ ?ws |- context [spec_words (length ?ws) (enc_words ?ws ++ _)] => rewrite (spec_words_enc ws _ H)
+       | H : Forall _ ?ws |- context [spec_words (length ?ws) (enc_words ?ws)] => rewrite (spec_words_enc_nil ws H)
+       end.
+  all: try (assert (num =? 0 = false) as -> by lia).
+  all: reflexivity.
+Qed.
+
+(* ---------- the crate's writer emits the specification's encoding ---------- *)
+Definition frame_abs (s : cpc) (seed_hash kxp_bits hip_bits : N) (c : compressed) : cpc_abs :=
+  mkCA (c_lgk s) (c_fic s) seed_hash
+       (if c_merge s then None else Some (if cpc_is_empty s then (0, 0) else (kxp_bits, hip_bits)))
+       (c_num s)
+       (match cp_table c with
+        | Some (n, w) => Some (match cp_window c with Some _ => n | None => c_num s end, w)
+        | None => None
+        end)
+       (cp_window c).
+
+Theorem frame_is_enc_spec : forall s sh kxp hip c,
+  (c_num s = 0 <-> cp_table c = None /\ cp_window c = None) ->
+  cpc_frame s sh kxp hip c = enc_spec (frame_abs s sh kxp hip c).
+Proof.
+  intros s sh kxp hip [tab win] Hemp. cbn [cp_table cp_window] in Hemp.
+  unfold cpc_frame, enc_spec, frame_abs, fmt_of, cpc_is_empty, write_hip, lenN, enc_words, flag.
+  cbn [cp_table cp_window ca_lgk ca_fic ca_seedhash ca_hip ca_num ca_sv ca_win].
+  change (zN Gen.GenCpcSer.SERIAL_VERSION) with 1. change (zN Gen.GenCodec.FAMILY_CPC_ID) with 16.
+  change (zN Gen.GenCpcSer.FLAG_COMPRESSED) with 1. change (zN Gen.GenCpcSer.FLAG_HAS_HIP) with 2.
+  change (zN Gen.GenCpcSer.FLAG_HAS_TABLE) with 3. change (zN Gen.GenCpcSer.FLAG_HAS_WINDOW) with 4.
+  destruct (c_num s =? 0) eqn:EC.
+  - assert (H0 : c_num s = 0) by lia. destruct (proj1 Hemp H0) as [-> ->].
+    rewrite (preamble_ints_table (c_num s) (negb (c_merge s)) false false) by (intros; try lia; split; reflexivity).
+    destruct (c_merge s); cbn [negb fmt_num]; reflexivity.
+  - assert (H0 : c_num s <> 0) by lia.
+    destruct tab as [[n tw]|]; destruct win as [ww|].
+    + rewrite (preamble_ints_table (c_num s) (negb (c_merge s)) true true) by (intros; try lia; left; reflexivity).
+      destruct (c_merge s); cbn [negb andb fmt_num app flat_map]; rewrite ?app_nil_r, <- ?app_assoc; reflexivity.
+    + rewrite (preamble_ints_table (c_num s) (negb (c_merge s)) true false) by (intros; try lia; left; reflexivity).
+      destruct (c_merge s); cbn [negb andb fmt_num app flat_map]; rewrite ?app_nil_r, <- ?app_assoc; reflexivity.
+    + rewrite (preamble_ints_table (c_num s) (negb (c_merge s)) false true) by (intros; try lia; right; reflexivity).
+      destruct (c_merge s); cbn [negb andb fmt_num app flat_map]; rewrite ?app_nil_r, <- ?app_assoc; reflexivity.
+    + exfalso. apply H0. apply Hemp. split; reflexivity.
+Qed.
+
+(* well-formed inputs of the framing *)
+Record frame_wf (s : cpc) (sh kxp hip : N) (c : compressed) : Prop := {
+  fw_lgk : 4 <= c_lgk s <= 26;
+  fw_fic : c_fic s <= 63;
+  fw_sh : sh < 65536;
+  fw_num : c_num s < 4294967296;
+  fw_kxp : kxp < 18446744073709551616;
+  fw_hip : hip < 18446744073709551616;
+  fw_emp : c_num s = 0 <-> cp_table c = None /\ cp_window c = None;
+  fw_tab : match cp_table c with Some (n, w) => n < 4294967296 /\ words_ok w | None => True end;
+  fw_win : match cp_window c with Some w => words_ok w | None => True end
+}.
+
+Theorem writer_conforms : forall s sh kxp hip c, frame_wf s sh kxp hip c ->
+  spec_decode (cpc_frame s sh kxp hip c) = Some (frame_abs s sh kxp hip c).
+Proof.
+  intros s sh kxp hip c [H1 H2 H3 H4 H5 H6 H7 H8 H9].
+  rewrite (frame_is_enc_spec s sh kxp hip c H7). apply spec_decode_enc_spec.
+  destruct c as [tab win]. unfold frame_abs, cpc_is_empty. cbn [cp_table cp_window] in *.
+  constructor; cbn [ca_lgk ca_fic ca_seedhash ca_hip ca_num ca_sv ca_win]; try assumption.
+  - destruct (c_merge s); [exact I|]. destruct (c_num s =? 0); split; lia.
+  - split.
+    + intros H0. destruct (proj1 H7 H0) as [-> ->]. split; reflexivity.
+    + intros [Ht Hw]. apply H7. split; [|exact Hw]. destruct tab as [[n w]|]; [discriminate|reflexivity].
+  - intros H0. destruct (c_merge s); [exact I|]. assert (c_num s =? 0 = true) as -> by lia. split; reflexivity.
+  - destruct tab as [[n w]|]; [|exact I]. destruct H8 as [Hn Hw]. split; [destruct win; assumption|]. split; [exact Hw|].
+    intros E. rewrite E. reflexivity.
+Qed.
